@@ -167,6 +167,38 @@ fn single(t: &mut Tape, rec: &mut Rec<'_>) {
             return;
         }
     }
+    // R3b: the conversion used depends on how the object was born (text / JSON / PST keep their own lossless form):
+    //   JSON-born --to_pst--> (EST->PST)   and   PST-born --to_json--> (PST->EST), --to_cedar--> printer
+    if !arity_err {
+        let check_tpl = |what: &str, got: Result<ast::Template, String>, rec: &mut Rec<'_>| match got {
+            Ok(b) => {
+                if let Err(e) = bridge::template_matches(&b, &p) {
+                    rec.fail(format!("{what}-vs-reference"), format!("{what}: {e}\npolicy: {txt}"));
+                } else if let Err(e) = bridge::templates_equal(&core_t, &b) {
+                    rec.fail(format!("{what}-vs-text-born"), format!("{what}: {e}\npolicy: {txt}"));
+                }
+            }
+            Err(e) => {
+                rec.fail(format!("{what}-failed"), format!("{what}: {e}\npolicy: {txt}"));
+            }
+        };
+        if p.is_template() {
+            let jb = Template::from_json(Some(id.clone()), j_ref.clone()).map_err(|e| e.to_string());
+            check_tpl("json-born.to_pst", jb.clone().and_then(|x| x.to_pst().map_err(|e| e.to_string())).and_then(|x| Template::from_pst(x).map_err(|e| e.to_string())).map(|x| x.as_ref().clone()), rec);
+            let pb = Template::parse(Some(id.clone()), &txt).map_err(|e| e.to_string()).and_then(|x| x.to_pst().map_err(|e| e.to_string())).and_then(|x| Template::from_pst(x).map_err(|e| e.to_string()));
+            check_tpl("pst-born.to_json", pb.clone().and_then(|x| x.to_json().map_err(|e| e.to_string())).and_then(|j| Template::from_json(Some(id.clone()), j).map_err(|e| e.to_string())).map(|x| x.as_ref().clone()), rec);
+            check_tpl("pst-born.to_cedar", pb.and_then(|x| Template::parse(Some(id.clone()), x.to_cedar()).map_err(|e| e.to_string())).map(|x| x.as_ref().clone()), rec);
+        } else {
+            let jb = Policy::from_json(Some(id.clone()), j_ref.clone()).map_err(|e| e.to_string());
+            check_tpl("json-born.to_pst", jb.clone().and_then(|x| x.to_pst().map_err(|e| e.to_string())).and_then(|x| Policy::from_pst(x).map_err(|e| e.to_string())).map(|x| x.as_ref().template().clone()), rec);
+            let pb = Policy::parse(Some(id.clone()), &txt).map_err(|e| e.to_string()).and_then(|x| x.to_pst().map_err(|e| e.to_string())).and_then(|x| Policy::from_pst(x).map_err(|e| e.to_string()));
+            check_tpl("pst-born.to_json", pb.clone().and_then(|x| x.to_json().map_err(|e| e.to_string())).and_then(|j| Policy::from_json(Some(id.clone()), j).map_err(|e| e.to_string())).map(|x| x.as_ref().template().clone()), rec);
+            check_tpl("pst-born.to_cedar", pb.and_then(|x| x.to_cedar().ok_or_else(|| "to_cedar() is None".to_string())).and_then(|c| Policy::parse(Some(id.clone()), c).map_err(|e| e.to_string())).map(|x| x.as_ref().template().clone()), rec);
+        }
+        if rec.failed() {
+            return;
+        }
+    }
     // R4: protobuf Expression
     if let Some((_, body)) = p.conds.first() {
         let etxt = text::expr(body, &mut text::Style::canonical());
@@ -290,6 +322,19 @@ fn set(t: &mut Tape, rec: &mut Rec<'_>) {
     }
     if rec.failed() {
         return;
+    }
+    if !arity_err {
+        // conversions starting from a JSON-born and from a PST-born set (each keeps its own lossless form)
+        let json_born = ps.clone().to_json().map_err(|e| e.to_string()).and_then(|j| PolicySet::from_json_value(j).map_err(|e| e.to_string()));
+        check("json-born-to-pst", json_born.and_then(|x| x.to_pst().map_err(|e| format!("to_pst: {e}"))).and_then(|x| PolicySet::from_pst(x).map_err(|e| format!("from_pst: {e}"))), rec);
+        if rec.failed() {
+            return;
+        }
+        let pst_born = ps.to_pst().map_err(|e| e.to_string()).and_then(|x| PolicySet::from_pst(x).map_err(|e| e.to_string()));
+        check("pst-born-to-json", pst_born.and_then(|x| x.to_json().map_err(|e| format!("to_json: {e}"))).and_then(|j| PolicySet::from_json_value(j).map_err(|e| format!("from_json_value: {e}"))), rec);
+        if rec.failed() {
+            return;
+        }
     }
     match ps.encode() {
         Ok(buf) => check("proto", PolicySet::decode(&buf[..]).map_err(|e| format!("decode: {e}")), rec),
